@@ -89,7 +89,7 @@ class EllipsoidART(BaseART):
         assert isinstance(params["beta"], float)
         assert isinstance(params["mu"], float)
         assert isinstance(params["r_hat"], float)
-        assert params["r_hat"] > 0.0
+        assert np.inf > params["r_hat"] > 0.0
 
     @staticmethod
     def category_distance(
